@@ -14,6 +14,7 @@ mod c10;
 mod c12;
 mod c13;
 mod c16;
+mod c17;
 mod util;
 
 use std::process::exit;
@@ -34,6 +35,7 @@ fn main() {
         ("search", "c10") => c10::search(&args[3..]),
         ("search", "c12") => c12::search(&args[3..]),
         ("search", "c13") => c13::search(&args[3..]),
+        ("search", "c17") => c17::search(&args[3..]),
         ("run", path) => {
             // manual triage helper: replay run <source file> [literal args..]  (compile, evaluate, print the result literal)
             let src = std::fs::read_to_string(path).unwrap_or_else(|e| { eprintln!("cannot read {path}: {e}"); exit(2) });
@@ -76,6 +78,7 @@ fn main() {
                 "c08-match" => c08::replay(&text),
                 "c12-consts" => c12::replay(&text),
                 "c13-join" => c13::replay(&text),
+                "c17-illtyped" => c17::replay(&text),
                 "c16-circuit" | "c10-conversion" => {
                     println!("{text}");
                     3
